@@ -1,8 +1,12 @@
-"""C15 — revisions keep increasing across leader changes and restarts."""
+"""C15 — revisions keep increasing across leader changes and restarts.
+
+Proof side besides KB.Props.C15 / OrderC15: KB.Props.C18Cas (EXTRA_PROP_MODULES) — the revision allocator tso.go at
+atomic-instruction granularity (`deal_after_commit_is_above`: a Deal after a finished Commit r returns > r, under every
+interleaving), tied to the source by regenerated shape facts; dynamic cross-check kbcheck/tsocas.py runs last."""
 from .. import core, hist
 from ..gen import KEY_POOL, PREFIX, hx, rng_for
 
-EXTRA_PROP_MODULES = [("KB.Props.OrderC15", "KB.OrderC15")]
+EXTRA_PROP_MODULES = [("KB.Props.OrderC15", "KB.OrderC15"), ("KB.Props.C18Cas", "KB.C18Cas")]
 
 ENGINES = ["memkv", "badger", "tikv"]
 
@@ -99,7 +103,7 @@ def oracle(case):
     return None
 
 
-def check(rep, tier, seed):
+def check_main(rep, tier, seed):
     n = 18 if tier == "quick" else 1200
     cases = [gen_case(seed, i, ENGINES[i % 3], heavy_failures=(i % 2 == 0), real=[None, "plain", "tso", "fresh", "slow", "tso2"][(i // 3) % 6]) for i in range(n)]
     cases += [sync_order_case(i) for i in range(3)]
@@ -119,3 +123,13 @@ def check(rep, tier, seed):
                         "(b) in two thirds of the cases by the real leader.NewLeaderElection(...).Campaign() (client-go elector) of a node restarted under the "
                         "identity that holds the lock, half of those with the engine-timestamp read after its lock write failing",
                         "revisions after a restart are wall-clock/TSO values: the model is compared only up to the restart, the rest is judged by the oracle"]
+
+
+def check(rep, tier, seed):
+    """the property's own suites, then (when they found nothing) the dynamic cross-check of the revision allocator whose
+    atomic-instruction proof is KB.Props.C18Cas (EXTRA_PROP_MODULES): supporting evidence, kbcheck/tsocas.py"""
+    from .. import tsocas
+    res = check_main(rep, tier, seed)
+    if not rep.violations:
+        tsocas.run_dynamic(rep, "C15", seed)
+    return res
